@@ -296,7 +296,17 @@ impl Meta {
                         // a line just before: executed on fall-through, so it must be a no-op
                         v.push(format!("{} {}", n - 1, rng.pick(&["REM", "'pad", ":", "::", "REM GOTO 1"])));
                     }
-                    v.push(text.clone());
+                    // an empty statement in front of ELSE changes nothing either (not behind a bare line number,
+                    // where `THEN 100: ELSE ..` is read differently)
+                    let mut text = text.clone();
+                    if rng.chance(1, 3) && !text.contains('"') {
+                        if let Some(i) = text.find(" ELSE ") {
+                            if !text[..i].ends_with(|c: char| c.is_ascii_digit()) {
+                                text = format!("{}{} ELSE {}", &text[..i], rng.pick(&[":", " :", "::"]), &text[i + 6..]);
+                            }
+                        }
+                    }
+                    v.push(text);
                 }
                 // unreachable lines after the end of everything
                 let last = p.lines.last().map(|l| p.num(l.label)).unwrap_or(0);
